@@ -59,7 +59,7 @@ def run_marg(shard, ctx):
             tag = ("c05", kind, D, R)
             Sig = objs.spd_batch(D, R, vi, seed, tag, diag=diag)
             mu = objs.vec_batch(D, R, vi, seed, tag)
-            which = ("fresh", "sliced_neg", "updated", "Sigma+Lambda", "queried", "replaced_mu", "prod_conjugate", "conditioned", "prod_linear", "prod_constant") if (vi == 0 and D <= 3) else ("fresh",)
+            which = ("fresh", "sliced_neg", "updated", "Sigma+Lambda", "queried", "replaced_mu", "prod_conjugate", "conditioned", "prod_linear", "prod_constant", "hadamard_onerank", "multiply_onerank", "joint_of_cond") if (vi == 0 and D <= 3) else ("fresh",)
             for prep, mkp, mu_e, Sig_e in objs.pdf_variants(kind, Sig, mu, which=which):
                 with ctx.guard("prepare." + prep, dict(prep=prep)) as g:
                     p = mkp()
@@ -80,16 +80,20 @@ def marg_on(ctx, shard, tier, p, ident, kind, D, R, vi, mu, Sig, prep):
                     continue
                 N = 2 if R != 2 else 3
                 xs = al.points(N, len(dims), salt=len(dims) + vi)
+                xm = xs * 0.5 + mu[0][dims][None]  # near the first component's mean (50 sigma from the origin for the hard entry)
                 facts = dict(R=R, ndims=len(dims), sorted=dims == sorted(dims), prep=prep)
                 if vi == 0 and R == 2 and dims == list(reversed(range(D))):
                     ctx.sample(dict(shard=shard["id"], op="get_marginal", dims=dims, Sigma=Sig, mu=mu, x=xs))
                 with ctx.guard("get_marginal.call", facts) as g:
                     m = p.get_marginal(objs.idx(dims, len(dims) + sum(dims)))
                     got = np.asarray(m.evaluate_ln(J(xs)))
+                    gotc = np.asarray(m(J(xm)))
                 if not g.ok:
                     continue
                 ref = np.array([rm.gauss_logpdf(xs, *rm.marginal(mu[r], Sig[r], dims)) for r in range(R)])
                 ctx.close("get_marginal.value", got, ref, facts=facts)
+                Sm_ref = np.array([Sig[r][np.ix_(dims, dims)] for r in range(R)])
+                objs.call_matches(ctx, "get_marginal.call_value", gotc, np.array([rm.gauss_logpdf(xm, *rm.marginal(mu[r], Sig[r], dims)) for r in range(R)]), facts=facts, lscale=objs.ln_scale(xm, Sm_ref))
                 ctx.close("get_marginal.mu", np.asarray(m.mu), mu[:, dims], facts=facts)
                 ctx.close("get_marginal.Sigma", np.asarray(m.Sigma), np.array([Sig[r][np.ix_(dims, dims)] for r in range(R)]), facts=facts)
                 # integral of the joint's evaluated function over the dropped coordinates
